@@ -8,6 +8,8 @@ open Owl
 
 @[simp] theorem has_zero (s : Sq) : BB.has (0#64) s = false := by simp [BB.has]
 
+@[simp] theorem has_zero' (s : Sq) : BB.has 0 s = false := has_zero s
+
 @[simp] theorem has_single (s t : Sq) : (BB.single s).has t = decide (s = t) := by
   unfold BB.has BB.single
   have hs := s.isLt; have ht := t.isLt
